@@ -29,7 +29,7 @@ CLAIMED = {
     ref='DESIGN.md §7 C04'),
  'C05': dict(level='other', engine='absint+terms',
     technique='abstract interpretation with whole symbolic expressions for the decoded coordinates; path facts at every state returning Some; exhaustive evaluation of the extracted gate expression over the 59 values of NL; NL summarised by its N1 range',
-    text='For airborne_position_with_reference and surface_position_with_reference, any message and any finite reference: no panic; every returned latitude is in [-90, 90] and no coordinate is NaN; every returned position passed |latitude - reference| <= half the zone height of its parity (360/60, 360/59; surface 90/60, 90/59) and |longitude - reference| <= half of Z / max(NL(decoded latitude) - i, 1) for every NL in 1..59 (Z = 360 or 90), the gates being on the very expressions returned; NL is only ever applied to the decoded latitude. This decides the second sentence of the property (absent or within half a zone of the reference, latitude in range).',
+    text='For airborne_position_with_reference and surface_position_with_reference, any message and any finite reference: no panic; every returned latitude is in [-90, 90] and no coordinate is NaN; every returned position passed |latitude - reference| <= half the zone height of its parity (360/60, 360/59; surface 90/60, 90/59) and |longitude - reference| <= half of Z / max(NL(decoded latitude) - i, 1) for every NL in 1..59 (Z = 360 or 90), the gates being on the very expressions returned; NL is only ever applied to the decoded latitude; the longitude tested by the gate is not shifted by 360 degrees beforehand. This decides the second sentence of the property (absent or within half a zone of the reference, latitude in range).',
     note='Static rule check. Not decided: the 10 m exactness for references within the unambiguous range (correct rounding of floor(0.5 + ref/d - cpr) over a continuum of references). Trusted: MIR, abstract interpreter (a path fact is recorded only for comparisons whose operands cannot be NaN), floor/fabs contracts, C04 rule N1 for the range of nl().',
     ref='DESIGN.md §7 C05'),
  'C06': dict(level='other', engine='absint+dataflow',
@@ -69,7 +69,7 @@ CLAIMED = {
     ref='DESIGN.md §7 C14'),
  'C15': dict(level='other', engine='absint',
     technique='abstract interpretation of MIR (intervals with NaN flag under IEEE round-to-nearest, known multiples for shifts, exact evaluation of the XXTEA round counter, element-wise evaluation of the small iterator pipelines), path fact at the reader call',
-    text='Totality: every panic obligation below Flarm::from_record(any u32, any [f64; 2] including NaN and infinities, any byte string) is discharged (indices into the 5 decrypted words and the 4 key words, 32-bit position arithmetic, shifts, casts), no recursion, both XXTEA loops finish within a fixed number of iterations for every input. Finiteness: every float field of every Ok record is finite; the two reference fields are byte copies of the argument, which is shown finite on every path reaching the reader. Track: 0 <= track < 360 in every Ok record. No clock / environment / randomness below the entry.',
+    text='Totality: every panic obligation below Flarm::from_record(any u32, any [f64; 2] including NaN and infinities, any byte string) is discharged (indices into the 5 decrypted words and the 4 key words, 32-bit position arithmetic, shifts, casts), no recursion, both XXTEA loops finish within a fixed number of iterations for every input. Finiteness: every float field of every Ok record is finite; the two reference fields are byte copies of the argument, which is shown finite on every path reaching the reader. Track: 0 <= track < 360 in every Ok record. No clock / environment / randomness below the entry. Necessary conditions of the round trip: decode_latitude / decode_longitude stay within, and reach both ends of, the window of the 19 / 20-bit field around constant references; make_key selects its key table by exactly bit 23 of the timestamp and the two tables are the published ones.',
     note='Static rule check. Not decided: that a packet built and encrypted by an independent implementation decodes to the same fields (round trip); key-table selection and position reconstruction are only covered for totality/finiteness. Trusted: MIR, abstract interpreter, contracts for deku primitive reads, Vec, iterator adaptors, libm atan2/sqrt, f64::rem_euclid (closed upper bound).',
     ref='DESIGN.md §7 C15'),
  'C16': dict(level='proof', engine='absint',
